@@ -1204,6 +1204,8 @@ class ExcAnalysis:
                 for callee, cnode, kind in self.cg.edges.get(fn.fq, []):
                     if callee.fq not in reach_fq:
                         continue
+                    if kind.endswith('-any') and self.flow.enclosing(cnode, (ast.Raise,)) is not None:
+                        continue   # formatting an arbitrary value into an exception message: assumed not to raise
                     for (exc, oid), (o, chain) in list(self.escapes[callee.fq].items()):
                         if (exc, oid) in esc or self.caught(fn, cnode, exc):
                             continue
